@@ -112,6 +112,35 @@ func sinkTaint(s *lenSink, wire bool) (bool, string) {
 		if par, ok := coll.(*ssa.Parameter); ok {
 			return true, "wire-derived parameter " + par.Name()
 		}
+		// a computed index into a fixed-size array inside a function that is fed wire bytes: the loop or
+		// arithmetic that produces the index is bounded by the wire data, the array is not
+		if coll != nil {
+			t := coll.Type()
+			if pt, ok := t.Underlying().(*types.Pointer); ok {
+				t = pt.Elem()
+			}
+			if _, isArr := t.Underlying().(*types.Array); isArr {
+				var ixv ssa.Value
+				switch x := s.Instr.(type) {
+				case *ssa.IndexAddr:
+					ixv = x.Index
+				case *ssa.Index:
+					ixv = x.Index
+				}
+				if _, isConst := ixv.(*ssa.Const); ixv != nil && !isConst {
+					for _, par := range s.Fn.Params {
+						switch pt := par.Type().Underlying().(type) {
+						case *types.Slice:
+							return true, "fixed-size array indexed while walking wire-derived parameter " + par.Name()
+						case *types.Basic:
+							if pt.Info()&types.IsString != 0 {
+								return true, "fixed-size array indexed while walking wire-derived parameter " + par.Name()
+							}
+						}
+					}
+				}
+			}
+		}
 	}
 	return false, ""
 }
